@@ -187,6 +187,10 @@ func (c *Context) ActorOf(actor vivid.Actor, options ...vivid.ActorOption) (vivi
 		return nil, err
 	}
 
+	// 子 Actor 一经注册即可经由路径被寻址，而它的 OnLaunch 稍后才入队：在此期间到达的用户消息不得先于 OnLaunch 被处理。
+	// 邮箱以暂停状态创建（暂停期间仍处理系统消息），由 OnLaunch 的处理过程恢复
+	childCtx.mailbox.Pause()
+
 	if c.system.appendActorContext(childCtx) {
 		return nil, vivid.ErrorActorAlreadyExists.WithMessage(childCtx.Ref().GetPath())
 	}
@@ -359,6 +363,8 @@ func (c *Context) HandleEnvelop(envelop vivid.Envelop) {
 
 	switch message := c.envelop.Message().(type) {
 	case *vivid.OnLaunch:
+		// 自此开始处理用户消息（首次启动时邮箱以暂停状态创建，见 ActorOf）
+		c.mailbox.Resume()
 		c.executeBehaviorWithRecovery(behavior)
 		// 通知事件流
 		c.EventStream().Publish(c, ves.ActorLaunchedEvent{
